@@ -58,6 +58,14 @@ def gen_cases(tier, seed):
             for rep in range(1 if tier == "quick" else 40):
                 cases.append({"cfg": cfg, "policy": pol, "mode": worlds[(k + pi + rep) % 3] if rep else w,
                               "world": "f64" if w == "f64" else "f32", "seed": env.subseed(seed, "c11", cfg, pol, rep), "cost": 1})
+    # wide layers whose determinant leaves the floating range while its logarithm does not (all worlds)
+    for f in (96, 128):
+        for cls, extra in (("naive", {"orth": True}), ("lu", {"idinit": True}), ("conv", {"idinit": True}),
+                           ("qr", {"nh": 4}), ("svd", {"nh": 4, "idinit": True})):
+            for wi, w in enumerate(worlds):
+                for pol in ("shrink", "grow"):
+                    cases.append({"cfg": dict({"cls": cls, "f": f, "cache": bool(wi % 2)}, **extra), "policy": pol, "mode": w,
+                                  "world": "f64" if w == "f64" else "f32", "seed": env.subseed(seed, "c11w", cls, f, w, pol), "cost": 1})
     # bundle to reduce process overhead
     bund = []
     per = 40
@@ -104,6 +112,16 @@ def apply_policy(m, pol, g):
                     p.copy_(torch.randn(p.shape, generator=g) + torch.eye(p.shape[0]))
                 else:
                     p.copy_(torch.randn(p.shape, generator=g) * 0.5)
+            elif pol in ("shrink", "grow"):
+                sgn = -1.0 if pol == "shrink" else 1.0
+                if leaf == "_weight":
+                    p.mul_(0.2 if pol == "shrink" else 5.0)
+                elif leaf in ("unconstrained_upper_diag", "unconstrained_diagonal"):
+                    p.add_(sgn * 1.6 + 0.1 * torch.randn(p.shape, generator=g))
+                elif leaf == "log_upper_diag":
+                    p.add_(sgn * 1.3 + 0.1 * torch.randn(p.shape, generator=g))
+                elif leaf in ("lower_entries", "upper_entries"):
+                    p.copy_(0.01 * torch.randn(p.shape, generator=g))
             elif pol == "zero_ish":
                 if leaf in ("q_vectors", "_weight"):
                     continue
